@@ -10,7 +10,7 @@ import Mathlib.Tactic.NormNum
 /-!
 # `Vec2/3/4::length()` is a Euclidean length as soon as `sqrt` is a square root
 
-The C15 theorems take the hypothesis `LenSpec (Gen.V3.length tmin sqrt)`.  Here it is DERIVED from
+The C15 theorems take the hypothesis `LenSpec (Gen.V3.length tmin tmax sqrt)`.  Here it is DERIVED from
 `SqrtSpec sqrt` for the real extracted bodies (every path of `length` / `lengthTiny`), for every value of `tmin` and `tmax`, over
 any ordered field; over `ℝ` with `Real.sqrt` this gives the non-vacuity instance used by the examples of
 `Props/C15.lean`.
@@ -38,7 +38,7 @@ theorem scaled_len {m S q : α} {sqrt : α → α} (hs : SqrtSpec sqrt) (hm : 0 
 
 set_option maxHeartbeats 4000000 in
 /-- `Vec3::length()` (with its `lengthTiny` branch for tiny vectors) IS a Euclidean length as soon as `sqrt` is a
-square root: the hypothesis `LenSpec (Gen.V3.length tmin sqrt)` of the C15 theorems follows from `SqrtSpec sqrt`,
+square root: the hypothesis `LenSpec (Gen.V3.length tmin tmax sqrt)` of the C15 theorems follows from `SqrtSpec sqrt`,
 for every value of `tmin` and `tmax` -/
 theorem V3_length_spec (tmin tmax : α) (sqrt : α → α) (hs : SqrtSpec sqrt) : LenSpec (Gen.V3.length tmin tmax sqrt) := by
   intro a
